@@ -48,9 +48,33 @@ def enumerate_campaign(camps, tier, tag, module="Campaign", extra_consts=None):
     return states, res
 
 
-def validate_trace(module, cfg, events, tag, timeout=3600):
+CHUNK = 120000
+
+
+def validate_trace(module, cfg, events, tag, timeout=3600, boundary=None):
     """Write events to a JSON file, run the trace specification over it.
-    Returns dict(failed=[{tid,i,failed}], accepted=bool, states=int, res=...)."""
+    Returns dict(failed=[{tid,i,failed}], accepted=bool, states=int, res=...).
+    boundary(e) says that the trace specification is back in its initial state after event e: a long
+    trace is then validated in pieces (one TLC run each; TLC's JSON reader gives up on half a gigabyte)."""
+    if boundary is not None and len(events) > CHUNK:
+        parts, start = [], 0
+        while start < len(events):
+            end = min(start + CHUNK, len(events))
+            while end < len(events) and not boundary(events[end - 1]):
+                end += 1
+            parts.append((start, end)); start = end
+        tot = {"failed": [], "accepted": True, "states": 0, "generated": 0, "depth": 0, "wall": 0.0, "path": None, "out": ""}
+        for a, b in parts:
+            r = validate_trace(module, cfg, events[a:b], tag, timeout)
+            for fl in r["failed"]:
+                fl["i"] += a
+            tot["failed"] += r["failed"]
+            tot["states"] += r["states"]; tot["generated"] += r["generated"]; tot["wall"] += r["wall"]
+            tot["path"], tot["out"] = r["path"], r["out"]
+            if tot["accepted"]:
+                tot["depth"] = a + r["depth"]
+                tot["accepted"] = r["accepted"]
+        return tot
     wd = tlc.workdir("trace_" + tag)
     path = os.path.join(wd, "trace.json")
     with open(path, "w") as f:
